@@ -184,7 +184,7 @@ def matrix_with_spectrum(rng, q0, q1, kind, cplx):
 
 
 def _layout(rng, m, n):
-    lay = str(rng.choice(['zero', 'sorted', 'unsorted', 'q0sorted', 'q1sorted', 'disjoint', 'big', 'pairs', 'repeated', 'huge', 'mirror', 'extreme-signs', 'int8', 'wrap-sorted', 'wrap-sorted-int8', 'int8-small', 'aliased', 'aliased', 'int-extremes']))
+    lay = str(rng.choice(['zero', 'sorted', 'unsorted', 'q0sorted', 'q1sorted', 'disjoint', 'big', 'pairs', 'repeated', 'huge', 'mirror', 'extreme-signs', 'int8', 'wrap-sorted', 'wrap-sorted-int8', 'int8-small', 'aliased', 'aliased', 'int-extremes', 'descending', 'descending']))
     r = int(rng.integers(1, 3))
     if min(m, n) >= 60 and rng.random() < 0.4:
         lay = 'many-sectors'
@@ -245,7 +245,12 @@ def random_svd(ctx, idx, rng):
         snap = oracles.snapshot_arrays(A, q0, q1)
         ctx.case(('svd', lay, kind, 'complex' if cplx else 'real', 'tol0' if tol == 0 else ('tol-on-weight' if tol not in TOLS else 'tol-grid'),
                   'zero' if nA == 0 else 'nonzero', mem), nontrivial=nA > 0, sample={'A': snap[0], 'q0': q0, 'q1': q1, 'tol': tol})
-        with monitor.write_protected(A, q0, q1):
+        if idx % 2:
+            with monitor.write_protected(A, q0, q1):
+                res = ptn.split_matrix_svd(A, q0, q1, tol)
+        else:
+            # every second case WITHOUT the write trap (a read-only argument can steer the code away from an in-place branch that a writeable array
+            # owning its memory would take); the arguments are compared bit for bit with their snapshots afterwards (svd.input-unchanged)
             res = ptn.split_matrix_svd(A, q0, q1, tol)
         oracles.check_svd(ctx, snap[0], snap[1], snap[2], tol, (A, q0, q1), res)
         if tol == 0 and nA > 0 and isinstance(res, tuple) and len(res) == 4:
